@@ -15,6 +15,7 @@ import (
 	"os"
 	"regexp"
 	"runtime/debug"
+	"runtime/pprof"
 	"sort"
 	"strconv"
 	"strings"
@@ -400,6 +401,12 @@ func main() {
 	}
 
 	t0 := time.Now()
+	if pf := os.Getenv("C07_CPUPROF"); pf != "" { // development aid: CPU profile of the generators
+		if f, err := os.Create(pf); err == nil {
+			pprof.StartCPUProfile(f)
+			defer pprof.StopCPUProfile()
+		}
+	}
 	only := os.Getenv("C07_ONLY") // development aid: run a single generator
 	for _, g := range generators {
 		if only != "" && g.name != only {
